@@ -37,18 +37,19 @@ def opt_text(it, ctx):
     if n == "default":
         if f == "word":
             return "default", h
-        h.append("pub fn fd_%s%s() -> %s { %s }" % (me, ctx.get("dg", ""), ctx["dt"], DEFAULT))
+        h.append("pub fn fd_%s%s() -> %s { %s }" % (me, ctx.get("dg", "") or ctx.get("fg", ""), ctx["dt"], DEFAULT))
         return ('default = "fd_%s"' if f == "str" else "default = fd_%s") % me, h
     if n == "with":
-        h.append("pub fn w_%s(m: &::syn::Meta) -> ::darling::Result<%s> { <%s as ::darling::FromMeta>::from_meta(m) }" % (me, src_ty, src_ty))
+        h.append("pub fn w_%s%s(m: &::syn::Meta) -> ::darling::Result<%s> { <%s as ::darling::FromMeta>::from_meta(m) }" % (
+            me, ctx.get("fg", "").replace(">", ": ::darling::FromMeta>"), src_ty, src_ty))
         return ("with = w_%s" % me) if f == "path" else ("with = |m| w_%s(m)" % me), h
     if n == "skip":
         return {"word": "skip", "true": "skip = true", "false": "skip = false"}[f], h
     if n == "map":
-        h.append("pub fn m_%s(v: %s) -> %s { v }" % (me, src_ty, src_ty))
+        h.append("pub fn m_%s%s(v: %s) -> %s { v }" % (me, ctx.get("fg", ""), src_ty, src_ty))
         return ('map = "m_%s"' if f == "str" else "map = m_%s") % me, h
     if n == "and_then":
-        h.append("pub fn t_%s(v: %s) -> ::darling::Result<%s> { %s(v) }" % (me, src_ty, src_ty, OK))
+        h.append("pub fn t_%s%s(v: %s) -> ::darling::Result<%s> { %s(v) }" % (me, ctx.get("fg", ""), src_ty, src_ty, OK))
         return ('and_then = "t_%s"' if f == "str" else "and_then = t_%s") % me, h
     if n == "multiple":
         return {"word": "multiple", "true": "multiple = true", "false": "multiple = false"}[f], h
@@ -99,6 +100,10 @@ def render(case, idx, rng):
     magic = {"FromDeriveInput": ["ident", "vis", "generics", "attrs", "data"], "FromField": ["ident", "vis", "ty", "attrs"],
              "FromVariant": ["ident", "discriminant", "fields", "attrs"], "FromTypeParam": ["ident", "bounds", "default", "attrs"]}.get(d, [])
     pool = [p for p in pool if p not in magic]
+    # names that are magic for OTHER derives are ordinary here (`vis` on a FromVariant receiver, `bounds` on a FromField one ..)
+    foreign = [n for n in ["ident", "vis", "generics", "attrs", "data", "ty", "discriminant", "fields", "bounds"] if n not in magic and not (n == "attrs" and d != "FromMeta")]
+    if foreign and (d in ("FromVariant", "FromTypeParam", "FromAttributes") or rng.random() < 0.4):
+        pool.insert(rng.randrange(2), rng.choice(foreign))
     # container options
     copts = []
     needs_default = False
@@ -130,6 +135,7 @@ def render(case, idx, rng):
     if shape in ("named", "named_attrs"):
         fields = []
         fnames = []
+        flat_generic = False
         for fi, key in enumerate(["f1", "f2"]):
             if key == "f2" and not (shape == "named" and case["f2present"]):
                 continue
@@ -138,19 +144,26 @@ def render(case, idx, rng):
             ft = STRING
             if any(i["name"] == "multiple" and i["form"] in ("word", "true") for i in items):
                 ft = VEC + "<" + STRING + ">"
-            if "flatten" in names:
+            if "flatten" in names and generic:
+                # the receiver's parameter is used by the flatten member only: its bound has to come from that member
+                ft = "Inner%d<%s>" % (idx, tp)
+                flat_generic = True
+                helpers.append("#[derive(Debug, Clone, ::darling::FromMeta)] pub struct Inner%d<X> { #[darling(default)] pub %s: %s<X> }" % (idx, pool[5], OPTION))
+                helpers.append("impl<X> ::core::default::Default for Inner%d<X> { fn default() -> Self { Self { %s: ::core::option::Option::None } } }" % (idx, pool[5]))
+            elif "flatten" in names:
                 ft = "Inner%d" % idx
                 helpers.append("#[derive(Debug, Clone, Default, ::darling::FromMeta)] pub struct Inner%d { #[darling(default)] pub %s: %s }" % (idx, pool[5], STRING))
-            src = STRING if ft != "Inner%d" % idx else ft
+            src = STRING if not ft.startswith("Inner%d" % idx) else ft
             fo = []
             for k, it in enumerate(items):
-                t, h = opt_text(it, {"me": "%d_%s_%d" % (idx, key, k), "ft": ft, "src": src, "dt": ft, "self": name, "derive": d, "g": g})
+                t, h = opt_text(it, {"me": "%d_%s_%d" % (idx, key, k), "ft": ft, "src": src, "dt": ft, "self": name, "derive": d, "g": g,
+                                     "fg": g if "<%s>" % tp in ft else ""})
                 fo.append(t)
                 helpers += h
             fname = pool[fi]
             fnames.append(fname)
             fields.append("    %spub %s: %s," % (("#[darling(%s)] " % ", ".join(fo)) if fo else "", fname, ft))
-        if generic:
+        if generic and not flat_generic:
             # the parameter is used by an optional member, so that the derive has to bound it
             fields.append("    pub %s: %s<%s>," % (pool[6], OPTION, tp))
             fnames.append(pool[6])
@@ -220,7 +233,12 @@ def main():
     for p in a.tlc_outputs:
         good = [c for c in tagged(p) if c["expect"]["impl"]]
         rng.shuffle(good)
-        cases += good[: a.max // len(a.tlc_outputs)]
+        # bodies with members exercise most of the generated code: two thirds of the sample
+        quota = a.max // len(a.tlc_outputs)
+        rich = [c for c in good if c["shape"] in ("named", "named_attrs", "enum")]
+        poor = [c for c in good if c["shape"] not in ("named", "named_attrs", "enum")]
+        take = rich[: (2 * quota) // 3]
+        cases += take + poor[: quota - len(take)]
     out = ["// @generated by tools/gen_c20.py", "#![allow(dead_code, non_snake_case, non_camel_case_types, unused_variables, clippy::all)]", ""]
     index = []
     line = len(out) + 1
